@@ -42,6 +42,8 @@ import XotModel.Lemmas.FfixedValid
 import XotModel.Lemmas.FanyorderMain
 import XotModel.Props.C01
 import XotModel.Lemmas.FfixedRepresentable
+import XotModel.Lemmas.FparseRoute
+import XotModel.Model.FparseRouteSpec
 
 namespace XotModel.Props
 open XotModel
@@ -475,5 +477,128 @@ example : ∃ p, parseString .document c01Env
       "<!--l--><r xmlns=\"urn:a\" xmlns:p=\"urn:b\" k=\"v\">x<p:c/>yz</r>".toList = .ok p ∧
     p.tree = treeOf docD ∧ p.env = c01Env ∧ deepEqual p.tree (treeOf docD) = true :=
   C20_parse_route c01Env docD (by decide) _ (by decide)
+
+end XotModel.Props
+
+/-! # ================================================================================================
+    # PARSE ROUTE AT FOREST LEVEL (branch wt-misc)
+    # ================================================================================================
+
+  `C20_parse_route` above is a statement about trees.  Here the text is parsed INTO an existing store
+  (`IdStore.parseInto`, Model/FidIndex.lean = what `Xot::parse` does to the arena and the xml:id index;
+  `IdStore.parseRoute` / `Forest.parseRoute`, Model/FparseRouteSpec.lean = serialise `treeOf d`, parse the
+  text into the store): the parse route is a `RouteOk` route in the same sense as `xotify` and the
+  stepwise routes — one new root erasing to `treeOf d`, `d.size` fresh handles, every other tree and the
+  flags untouched, `Forest.Inv` kept — and `C20_all_routes_agree_forest` lists the five new roots with
+  equal erasures.  (The C04 lemma family cannot be imported here: the facts about `HTree.ofTree` are
+  re-proved in Lemmas/FparseRoute.lean; `Forest.Inv` of the result is by `Forest.inv_add_root` as for the
+  other routes, in agreement with `C04_parse_inv`.) -/
+
+namespace XotModel.Props
+open XotModel
+
+/-- **C20_parse_route_forest**: for a store `s` (forest + xml:id index) whose forest satisfies the C04
+    invariant and a document in the C01 domain with text `text`: the text parses (tables unchanged),
+    and parsing it INTO `s` adds exactly one new root `t` — handles `next … next + d.size - 1` — that
+    erases to `treeOf d`; the returned document node is `t`'s handle and looks up `treeOf d`; every other
+    tree, the flags and all existing handles are as before; the result satisfies `Forest.Inv`. -/
+theorem C20_parse_route_forest (env : Env) (s : IdStore) (d : FDocument) (hi : s.forest.Inv)
+    (hr : Representable env (treeOf d) = true) (text : Str) (hs : toXmlString env (treeOf d) [] = .ok text) :
+    ∃ p t, parseString .document env text = .ok p ∧ p.env = env ∧
+      s.parseRoute env d = some (s.parseInto p.tree) ∧
+      (s.parseInto p.tree).1.forest =
+        { s.forest with roots := s.forest.roots ++ [t], next := s.forest.next + d.size } ∧
+      (s.parseInto p.tree).2 = t.handle ∧ t.erase = treeOf d ∧
+      (s.parseInto p.tree).1.forest.treeAt t.handle = some (treeOf d) ∧
+      (s.parseInto p.tree).1.forest.Inv := by
+  obtain ⟨p, h1, h2, h3, _⟩ := C20_parse_route env d hr text hs
+  obtain ⟨t, k1, k2, k3, k4⟩ := IdStore.fpr_parseInto_spec s d (C20_good_of_inv _ hi)
+  refine ⟨p, t, h1, h3, ?_, ?_, ?_, k3, ?_, ?_⟩
+  · simp only [IdStore.parseRoute, hs, h1]
+  · rw [h2]; exact k1
+  · rw [h2]; exact k2
+  · rw [h2, k1, Forest.treeAt_new_root s.forest t _ k4, k3]
+  · rw [h2, k1]
+    exact Forest.inv_add_root s.forest hi d t _ k3 (C20_representable_wf env s.forest d hr).1 k4
+
+/-- The parse route is a `RouteOk` route: same conclusion as `C20_fixed`, `C20_topdown`, `C20_bottomup`,
+    `C20_rtl` (and hence `C20_inv_preserved` applies to it), whatever the xml:id index holds. -/
+theorem C20_parse_routeOk (env : Env) (index : List ((Nat × Str) × Nat)) (f : Forest) (d : FDocument)
+    (hg : Good f) (hr : Representable env (treeOf d) = true)
+    (hw : namesWritable env (treeOf d) [] = some true) :
+    RouteOk (Forest.parseRoute env index) f d := by
+  obtain ⟨text, p, hs, h1, h2, _, _⟩ := C20_parse_route_writable env d hr hw
+  obtain ⟨t, k1, k2, k3, k4⟩ := IdStore.fpr_parseInto_spec ⟨f, index⟩ d hg
+  apply C20_routeOk_of_spec
+  refine ⟨t, ?_, k3, k4⟩
+  simp only [Forest.parseRoute, IdStore.parseRoute, hs, h1, Option.map_some, h2]
+  rw [show ((IdStore.mk f index).parseInto (treeOf d)).1.forest = _ from k1,
+    show ((IdStore.mk f index).parseInto (treeOf d)).2 = _ from k2]
+
+/-- **All five routes agree at forest level**: from any store satisfying `Forest.Inv`, for a document in
+    the C01 domain whose names are writable, `fixed::Document::xotify`, top-down, bottom-up, right-to-left
+    construction and serialise-then-parse each add ONE new root to the store (and change nothing else);
+    the five roots have the same erasure, `treeOf d`, and each resulting store satisfies `Forest.Inv`. -/
+theorem C20_all_routes_agree_forest (env : Env) (index : List ((Nat × Str) × Nat)) (f : Forest)
+    (d : FDocument) (hi : f.Inv) (hr : Representable env (treeOf d) = true)
+    (hw : namesWritable env (treeOf d) [] = some true) :
+    ∃ ta tt tb tr tp : HTree,
+      f.xotifyDocument d = some ({ f with roots := f.roots ++ [ta], next := f.next + d.size }, ta.handle) ∧
+      f.topDownDocument d = some ({ f with roots := f.roots ++ [tt], next := f.next + d.size }, tt.handle) ∧
+      f.bottomUpDocument d = some ({ f with roots := f.roots ++ [tb], next := f.next + d.size }, tb.handle) ∧
+      f.rtlDocument d = some ({ f with roots := f.roots ++ [tr], next := f.next + d.size }, tr.handle) ∧
+      f.parseRoute env index d = some ({ f with roots := f.roots ++ [tp], next := f.next + d.size }, tp.handle) ∧
+      ta.erase = treeOf d ∧ tt.erase = ta.erase ∧ tb.erase = ta.erase ∧ tr.erase = ta.erase ∧
+      tp.erase = ta.erase ∧
+      (∀ t ∈ [ta, tt, tb, tr, tp],
+        ({ f with roots := f.roots ++ [t], next := f.next + d.size } : Forest).Inv ∧
+        ({ f with roots := f.roots ++ [t], next := f.next + d.size } : Forest).treeAt t.handle = some (treeOf d)) := by
+  have hg := C20_good_of_inv f hi
+  have hwf := (C20_representable_wf env f d hr).1
+  obtain ⟨ta, ha, ea, la, ga⟩ := C20_fixed f d hg hwf
+  obtain ⟨tt, ht, et, lt, gt⟩ := C20_topdown f d hg hwf
+  obtain ⟨tb, hb, eb, lb, gb⟩ := C20_bottomup f d hg hwf
+  obtain ⟨tr, hr', er, lr, gr⟩ := C20_rtl f d hg hwf
+  obtain ⟨tp, hp, ep, lp, gp⟩ := C20_parse_routeOk env index f d hg hr hw
+  refine ⟨ta, tt, tb, tr, tp, ha, ht, hb, hr', hp, ea, by rw [et, ea], by rw [eb, ea], by rw [er, ea],
+    by rw [ep, ea], ?_⟩
+  intro t hmem
+  simp only [List.mem_cons, List.not_mem_nil, or_false] at hmem
+  rcases hmem with rfl | rfl | rfl | rfl | rfl
+  · exact ⟨Forest.inv_add_root f hi d _ _ ea hwf ga, la⟩
+  · exact ⟨Forest.inv_add_root f hi d _ _ et hwf gt, lt⟩
+  · exact ⟨Forest.inv_add_root f hi d _ _ eb hwf gb, lb⟩
+  · exact ⟨Forest.inv_add_root f hi d _ _ er hwf gr, lr⟩
+  · exact ⟨Forest.inv_add_root f hi d _ _ ep hwf gp, lp⟩
+
+/-- Non-vacuity, closed: `docD` parsed into a store that already holds an element and a comment. -/
+example :
+    let f : Forest := { roots := [.node 0 (.element 2) [.node 1 (.text ['t']) []], .node 2 (.comment []) []], next := 3 }
+    f.inv = true ∧ Representable c01Env (treeOf docD) = true ∧
+      namesWritable c01Env (treeOf docD) [] = some true ∧ docD.size = 9 := by decide
+example : ∃ t : HTree,
+    Forest.parseRoute c01Env []
+      { roots := [.node 0 (.element 2) [.node 1 (.text ['t']) []], .node 2 (.comment []) []], next := 3 } docD =
+      some ({ roots := [.node 0 (.element 2) [.node 1 (.text ['t']) []], .node 2 (.comment []) [], t], next := 12 }, 3) ∧
+    t.handle = 3 ∧ t.erase = treeOf docD := by
+  obtain ⟨t, h1, h2, _, _⟩ := C20_parse_routeOk c01Env []
+    { roots := [.node 0 (.element 2) [.node 1 (.text ['t']) []], .node 2 (.comment []) []], next := 3 } docD
+    (C20_good_of_inv _ ((Forest.inv_iff _).mp (by decide))) (by decide) (by decide)
+  have hh : t.handle = 3 := by
+    have := congrArg (fun o => o.map (·.2)) h1
+    simp only [Forest.parseRoute, IdStore.parseRoute] at this
+    revert this
+    cases toXmlString c01Env (treeOf docD) [] with
+    | ok text =>
+      simp only
+      cases parseString .document c01Env text with
+      | ok p => simp only [Option.map_some, IdStore.parseInto, Option.some.injEq]; intro e; exact e.symm
+      | err e env' => simp
+      | panic => simp
+    | err e => simp
+    | panic => simp
+  refine ⟨t, ?_, hh, h2⟩
+  rw [h1, hh]
+  rfl
 
 end XotModel.Props
